@@ -54,3 +54,9 @@ package asa
 
 // text handed to the device, a file or a log is never interpreted as a printf format
 //vc:constformat[C01,C02]
+
+// The patterns of device output that is accepted after a change command are
+// part of the specification of isValidOutput (regexp matching is an
+// uninterpreted function in the proofs): they must stay the reviewed ones.
+//vc:globalconst[C09] sameGroupRegex regexp.MustCompile "^WARNING: Same object-group is used more than once in one config line"
+//vc:globalconst[C09] cryptoMapIncompleteRegex regexp.MustCompile "WARNING: The crypto map entry (?:is|will be) incomplete!"
